@@ -181,10 +181,43 @@ def run(case, acc=None, count=True):
     return probs
 
 
+def outage_case(seed, i, flavours, rng):
+    """OUTAGE: a synchronised phase (every op followed by quiescence, so deletions are fully recorded), a stop, then
+    operations performed while stopped -- among them re-creations of names deleted before -- and a restart in one of
+    the three storage modes."""
+    g = W.Gen(rng)
+    side = rng.randrange(2)
+    flavour = flavours[(i // 3) % len(flavours)]
+    mode = ("nocursor", "badcursor", "intact")[(i // (3 * len(flavours))) % 3]
+    base, m = g.base_tree(side, rng.choice((2, 4, 6)))
+    g._norename, g._chain, g._pathid_sides = set(), set(), {k for k in (0, 1) if flavour[k] == "p"}    # pylint: disable=protected-access
+    renamed, deleted = set(), set()
+    sched = []
+    w1 = {"create": 3, "write": 2, "rename": 1, "delete": 5, "mkdir": 1, "rmdir": 1, "rendir": 1, "recreate": 1}
+    for _ in range(rng.randrange(2, 6)):
+        sched.append(["U", g.gen_op(m, side, None, w1, renamed, deleted)])
+        sched.append(["Q"])
+        g._chain = set()                                                                                # pylint: disable=protected-access
+    sched.append(["R", mode])
+    for _ in range(rng.randrange(1, 5)):
+        sched.append(["U", g.gen_op(m, side, None, RECREATE, renamed, deleted)])
+    for _ in range(rng.randrange(0, 4)):
+        sched.append([rng.choice(W.STEPS)])
+    case = {"family": "ONE%d" % side, "flavour": flavour, "shape": "outage", "base": base, "base_side": side, "sched": sched,
+            "expect": m.t, "index": i, "sim_seed": rng.getrandbits(32), "rmode": mode}
+    return case
+
+
+RECREATE = {"create": 3, "write": 2, "rename": 1, "delete": 4, "mkdir": 1, "rmdir": 1, "rendir": 0, "recreate": 6}
+
+
 def make(seed, i, flavours):
-    case = F.make_case(seed, PROP, i, flavours=flavours)
     rng = random.Random("%s:C06r:%d" % (seed, i))
-    mode = ("intact", "nocursor", "badcursor", "intact")[(i // 4) % 4]
+    if i % 3 == 2:
+        return outage_case(seed, i, flavours, rng)
+    else:
+        case = F.make_case(seed, PROP, i, flavours=flavours)
+        mode = ("intact", "nocursor", "badcursor", "intact")[(i // 4) % 4]
     return with_restarts(case, rng, mode)
 
 
